@@ -685,3 +685,80 @@ V("c16-schema-handler-first", "C16", "fire", "C16.R4",
 V("c16-handler-name-raw", "C16", "fire", "C16.R6",
   ("src/ZConfig/schema.py", "        v = attrs.get(\"handler\")\n        if v is None:\n            return v\n        return self.basic_key(v)",
    "        v = attrs.get(\"handler\")\n        return v"))
+
+# ---------------------------------------------------------------- C15
+V("c15-raw-key-lookup", "C15", "fire", "C15.R3",
+  (MTF, "            if k == realkey:\n                break", "            if k == key:\n                break"))
+V("c15-mixin-raw-key", "C15", "fire", "C15.R3",
+  (CM, "        if realkey in self.optionbag:\n            return", "        if key in self.optionbag:\n            return"))
+V("c15-no-strip", "C15", "fire", "C15.R1",
+  (CF, "            return False, line.strip()", "            return False, line.rstrip()"))
+V("c15-semicolon-comment", "C15", "fire", "C15.R1",
+  (CF, 'if line[:1] in ("", "#"):', 'if line[:1] in ("", "#", ";"):'))
+V("c15-type-not-lowered", "C15", "fire", "C15.R2",
+  (CF, "        type_ = self._normalize_case(type_)\n        if name:", "        if name:"))
+V("c15-define-not-lowered", "C15", "fire", "C15.R2",
+  (CF, "        defname = self._normalize_case(parts[0])", "        defname = parts[0]"))
+V("c15-unfix-empty-form", "C15", "fire", "C15.R4",
+  (CF, "        if isempty:\n            self._end_section(section, type_, name, newsect)",
+       "        if isempty:\n            self.context.endSection(section, type_, name, newsect)"))
+V("c15-addvalue-counter", "C15", "fire", "C15.R5",
+  (MTF, "        value = ValueInfo(value, position)\n        if k == '+':",
+        "        value = ValueInfo(value, position)\n        self._last_key = realkey\n        if k == '+':"))
+V("c15-kv-writes-parser", "C15", "fire", "C15.R5",
+  (CF, "        key, value = m.group('key', 'value')\n        if not value:",
+       "        key, value = m.group('key', 'value')\n        self.lastkey = key\n        if not value:"))
+
+# ---------------------------------------------------------------- C10
+V("c10-unfix-importerror", "C10", "fire", "C10.R",
+  (SC, "        except ImportError as e:\n            self.error(f\"could not load datatype {dtname!r}: {e}\")\n", ""))
+V("c10-unfix-default-key", "C10", "fire", "C10.R",
+  (INFO, "            key = self.convert_default_key(keytype, k, vi.position)\n            self.add_valueinfo(vi, key)",
+         "            key = ValueInfo(k, vi.position).convert(keytype)\n            self.add_valueinfo(vi, key)"))
+V("c10-required-default-ok", "C10", "fire", "C10.R6",
+  (SC, "            if minOccurs:\n                self.error(\"required key cannot have a default value\")\n", ""))
+V("c10-multikey-default-attr-ok", "C10", "fire", "C10.R6",
+  (SC, "        if \"default\" in attrs:\n            self.error(\"default values for multikey must be given using\"\n                       \" 'default' elements\")\n", ""))
+V("c10-multisection-any-name", "C10", "fire", "C10.R6",
+  (SC, "        if any_name not in (\"*\", \"+\"):\n            self.error(\"multisection must specify '*' or '+' for the name\")\n", ""))
+V("c10-key-star-ok", "C10", "fire", "C10.R6",
+  (SC, "        if any_name == '*':\n            self.error(element + \" may not specify '*' for name\")\n", ""))
+V("c10-wildcard-no-attr", "C10", "fire", "C10.R6",
+  (SC, "            if not aname:\n                self.error(\n                    \"container attribute must be specified and non-empty\"\n"
+       "                    \" when using '*' or '+' for a section name\")\n", ""))
+V("c10-extends-abstract-ok", "C10", "fire", "C10.R6",
+  (SC, "            if base.isabstract():\n                self.error(\"sectiontype cannot extend an abstract type\")\n", ""))
+V("c10-implements-concrete-ok", "C10", "fire", "C10.R6",
+  (SC, "            if not interface.isabstract():\n                self.error(\n                    \"type specified by implements is not an abstracttype\")\n", ""))
+V("c10-reserved-prefix-ok", "C10", "fire", "C10.R6",
+  (SC, "            if aname.startswith(\"getSection\"):\n                # reserved; used for SectionValue methods to get meta-info\n"
+       "                self.error(\"attribute names may not start with 'getSection'\")\n", ""))
+V("c10-required-maybe-false", "C10", "fire", "C10.R6",
+  (SC, "            self.error(\"value for 'required' must be 'yes' or 'no'\")", "            return False"))
+V("c10-name-dup-ok", "C10", "fire", "C10.R4",
+  (INFO, "        if key and key in self._keymap:\n            raise ZConfig.SchemaError(\n                \"child name %s already used\" % key)\n", ""))
+V("c10-type-redefine-ok", "C10", "fire", "C10.R4",
+  (INFO, "        if n in self._types:\n            raise ZConfig.SchemaError(\"type name cannot be redefined: \"\n                                      + repr(typeinfo.name))\n", ""))
+V("c10-unkeyed-wildcard-default", "C10", "fire", "C10.R5",
+  (INFO, "        if self.name == \"+\" and key is None:", "        if self.name == \"+\" and key is None and False:"))
+V("c10-second-default-ok", "C10", "fire", "C10.R5",
+  (INFO, "        elif self._default is not None:\n            raise ZConfig.SchemaError(\n"
+         "                \"cannot set more than one default to key with maxOccurs == 1\")\n        else:\n            self._default = vi",
+         "        else:\n            self._default = vi"))
+V("c10-stray-text-ok", "C10", "fire", "C10.R2",
+  (SC, "        elif data.strip():\n            self.error(\"unexpected non-blank character data: \"\n                       + repr(data.strip()))\n", ""))
+V("c10-nesting-unchecked", "C10", "fire", "C10.R2",
+  (SC, "            if parent not in self._allowed_parents[name]:\n                self.error(\n"
+       "                    f\"{name!r} elements may not be nested\"\n                    \" in {parent!r} elements\")\n", ""))
+V("c10-key-in-abstracttype", "C10", "fire", "C10.R3",
+  (SC, '        "key": ["schema", "sectiontype"],', '        "key": ["schema", "sectiontype", "abstracttype"],'))
+V("c10-new-tag-no-handler", "C10", "fire", "C10.R1",
+  (SC, '    _handled_tags = ("import", "abstracttype", "sectiontype",', '    _handled_tags = ("import", "abstracttype", "sectiontype", "include",'))
+V("c10-component-skips-base", "C10", "fire", "C10.R8",
+  (SC, "        self._check_not_toplevel(\"multikey\")\n        BaseParser.start_multikey(self, attrs)",
+       "        self._check_not_toplevel(\"multikey\")"))
+V("c10-error-wrong-class", "C10", "fire", "C10.R7",
+  (SC, "        kind = kind or ZConfig.SchemaError", "        kind = kind or ZConfig.ConfigurationError"))
+V("c10-raise-valueerror", "C10", "fire", "C10.R",
+  (INFO, "            raise ZConfig.SchemaError(\n                \"child attribute name %s already used\" % info.attribute)",
+         "            raise ValueError(\n                \"child attribute name %s already used\" % info.attribute)"))
